@@ -436,3 +436,49 @@ def send_all(names, put_one):
 def discarded_futures_selfcheck():
     tree = ast.parse(_FUTURES_EXAMPLE)
     return len(discarded_futures_in(tree.body[0])) == 1
+
+
+
+# ---------------------------------------------------------------------------
+# "the object escaped": a rule that concludes "X is never done to <object>" from the events of one function is wrong when
+# the object was handed to a project helper the evaluator did not follow -- the verdict is then UNDECIDED, not VIOLATED
+
+_LIBRARY_METHOD_NAMES = {"get", "set", "setdefault", "update", "append", "extend", "pop", "keys", "items", "values", "copy", "close", "open",
+                         "read", "write", "format", "join", "split", "strip", "index", "count", "fill", "astype", "reshape", "sum", "any", "all"}
+
+
+def project_names(project):
+    tab = sym.project_cache(project, "defined-names")
+    if not tab:
+        for q, fn in project.funcs.items():
+            tab.setdefault(fn.node.name, []).append(fn)
+        for q in getattr(project, "classes", {}):
+            tab.setdefault(q.rsplit(".", 1)[-1], [])
+        tab.setdefault("<built>", [])
+    return tab
+
+
+def opaque_project_calls(project, result, objs):
+    """Call events of an evaluation that were *not* inlined, whose callee is named like something the project defines, and
+    that receive one of *objs* (terms) as receiver or (part of an) argument."""
+    names = project_names(project)
+    objs = [o for o in objs if o is not None]
+    out = []
+    for e in result.events:
+        if e.kind != "call" or e.extra is not None:
+            continue
+        t = e.term
+        if t[0] != "call":
+            continue
+        f = t[1]
+        nm = f[1] if f[0] == "sym" else (f[2] if f[0] == "attr" else None)
+        if nm is None or nm in _LIBRARY_METHOD_NAMES or nm not in names or nm == "<built>":
+            continue
+        parts = list(t[2]) + [v for _k, v in t[3]] + ([f[1]] if f[0] == "attr" else [])
+        def mentions(x):
+            if x in objs:
+                return True
+            return isinstance(x, tuple) and any(mentions(y) for y in x if isinstance(y, tuple))
+        if any(mentions(p_) for p_ in parts):
+            out.append(e)
+    return out
